@@ -22,6 +22,7 @@
 #include <sys/wait.h>
 #include <sys/stat.h>
 #include <fcntl.h>
+#include <sys/mman.h>
 
 static int via_table;
 static spif_mbuff_t S[2];          /* slot A, slot B */
@@ -130,6 +131,71 @@ static void poison_slack(spif_mbuff_t m, int step) {
         if ((step & 1) && len > 0) m->buff[i] = m->buff[k % len];
         else m->buff[i] = alpha[k % (long) sizeof(alpha)];
     }
+}
+/* ---- real sizes (round 5): objects of 2 GiB + k / 4 GiB + k bytes in GAP-COMPRESSED form ------------------------------
+ * `huge_new <head> <2g|4g> <tail>` builds, through the public constructor spif_mbuff_new_from_buff(), an object whose
+ * bytes are  head ++ G zero bytes ++ tail  with G = 2^31 or 2^32 (source: a lazily zeroed MAP_NORESERVE mapping).  The
+ * specification sees the same object with the gap compressed to GM zeros (MBuffObj.tla, "Gap compression", GapLaw): the
+ * harness translates positions / lengths between the two scales - arguments model -> real, results real -> model -
+ *     p <  head + GM/2            same position in both           (head and the first half of the model gap)
+ *     p >= head + GM/2 (model)    real position p + (G - GM)      (second half of the gap, tail, the length itself)
+ * and projects the real bytes as  [0, head+GM/2) ++ [head+G-GM/2, len)  after checking that everything between is zero.  A
+ * result that falls deep inside the gap has no model position and is reported as an invariant failure.  Only operations
+ * that do not need a second multi-GiB block are offered on such an object (queries, subbuff*, cmp family, reverse, del). */
+#define GM 8
+typedef struct { int on; long head, G; } scaled_t;
+static scaled_t SC[2];
+#define BIGV (1L << 30)                       /* values beyond +-2^30 are extreme-argument classes: passed through */
+static long sc_pos_in(const scaled_t *sc, long p) { return (p < sc->head + GM / 2) ? p : p + (sc->G - GM); }
+static long sc_len_model(const scaled_t *sc, long reallen) { return reallen - (sc->G - GM); }
+/* an index argument (may be negative = from the end) */
+static long sc_idx_in(const scaled_t *sc, long reallen, long i) {
+    long lm = sc_len_model(sc, reallen), k;
+    if (!sc->on || i >= BIGV || i <= -BIGV) return i;
+    if (i >= 0) return sc_pos_in(sc, i);
+    k = i + lm;
+    if (k < 0) return i - (sc->G - GM);
+    return sc_pos_in(sc, k) - reallen;
+}
+static long sc_cnt_in(const scaled_t *sc, long n) {           /* a count / length measured from the start (ncmp) */
+    if (!sc->on || n >= BIGV || n <= -BIGV || n < 0) return n;
+    return sc_pos_in(sc, n);
+}
+static int sc_pos_out(const scaled_t *sc, long p, long *out) {
+    if (!sc->on || p < sc->head + GM / 2) { *out = p; return 1; }
+    if (p >= sc->head + sc->G - GM / 2) { *out = p - (sc->G - GM); return 1; }
+    return 0;
+}
+/* all of [a, b) zero?  full = every byte (word loop, not instrumented: ~0.2 s per 2 GiB); otherwise 64 KiB at either end and
+ * 8192 probes in between.  The full scan runs after every mutating call and before the object is deleted, so that a stray
+ * write by a query is found at the latest then. */
+__attribute__((no_sanitize("address"))) static int gap_is_zero(const unsigned char *p, long a, long b, int full) {
+    long i;
+    if (full) {
+        while (a < b && (((unsigned long) (p + a)) & 7)) { if (p[a]) return 0; a++; }
+        for (; a + 8 <= b; a += 8) if (*(const unsigned long *) (p + a)) return 0;
+        for (; a < b; a++) if (p[a]) return 0;
+        return 1;
+    }
+    for (i = a; i < b && i < a + 65536; i++) if (p[i]) return 0;
+    for (i = (b - 65536 > a) ? b - 65536 : a; i < b; i++) if (p[i]) return 0;
+    for (i = 0; i < 8192; i++) if (p[a + (long) (((unsigned long) i * 2654435761UL * 4099UL) % (unsigned long) (b - a))]) return 0;
+    return 1;
+}
+static int sc_full_scan = 1;
+static const char *put_slot_scaled(vh_sb *out, spif_mbuff_t m, const scaled_t *sc) {
+    long a = sc->head + GM / 2, b = sc->head + sc->G - GM / 2, len = (long) m->len, i, first = 1;
+    if (len < b) FAIL("scaled:length_%ld_is_shorter_than_head+gap", len);
+    if (!gap_is_zero((const unsigned char *) m->buff, a, b, sc_full_scan)) FAIL("scaled:non-zero_byte_inside_the_gap");
+    sb_puts(out, "{live=T,s=[");
+    for (i = 0; i < len; i++) {
+        if (i == a) i = b;
+        if (i >= len) break;
+        if (!first) sb_putc(out, ',');
+        sb_printf(out, "%u", (unsigned) m->buff[i]); first = 0;
+    }
+    sb_puts(out, "]}");
+    return NULL;
 }
 static void put_slot(vh_sb *out, spif_mbuff_t m) {
     if (!m) { sb_puts(out, "{live=F,s=[]}"); return; }
@@ -309,7 +375,7 @@ static spif_mbuff_t from_input_fault(int use_fp, const char *kind, const unsigne
 }
 
 /* ---- script interface ------------------------------------------------------------------------------------------ */
-static void vh_begin(void) { S[0] = S[1] = (spif_mbuff_t) NULL; }
+static void vh_begin(void) { S[0] = S[1] = (spif_mbuff_t) NULL; SC[0].on = SC[1].on = 0; }
 static void vh_end(void) {
     int k;
     for (k = 0; k < 2; k++) if (S[k]) { spif_mbuff_del(S[k]); S[k] = (spif_mbuff_t) NULL; }
@@ -346,7 +412,31 @@ static const char *vh_step(const vh_step_t *st, vh_sb *ret, vh_sb *state) {
         errno = stale[(vh_cur_step + (int) (vh_cur_sid & 3)) & 3];
     }
 
-    if (me == 1 && OP("dup_to_a")) {
+    if (SC[0].on && !(OP("index") || OP("rindex") || OP("find") || OP("cmp") || OP("find_from_ptr") || OP("cmp_with_ptr") || OP("ncmp") ||
+                      OP("ncmp_with_ptr") || OP("subbuff") || OP("subbuff_to_ptr") || OP("reverse") || OP("del") ||
+                      (me == 1 && (OP("new_from_ptr") || OP("del") || OP("cmp_a") || OP("reverse") || OP("clear") || OP("append_from_ptr")))))
+        FAIL("harness:op_%s_not_offered_on_a_gap-compressed_object", st->op);
+    sc_full_scan = (OP("huge_new") || OP("reverse"));
+    if (SC[0].on && me == 0 && OP("del")) {
+        long a_ = SC[0].head + GM / 2, b_ = SC[0].head + SC[0].G - GM / 2;
+        if ((long) S[0]->len >= b_ && !gap_is_zero((const unsigned char *) S[0]->buff, a_, b_, 1)) FAIL("scaled:non-zero_byte_inside_the_gap_(found_before_del)");
+    }
+    if (OP("huge_new")) {
+        /* args: head bytes, gap class, tail bytes */
+        size_t hn, tn; unsigned char *hp = vh_bytes(st->args[0], &hn, 0), *tp = vh_bytes(st->args[2], &tn, 0), *reg;
+        long G = !strcmp(st->args[1], "4g") ? (1L << 32) : (1L << 31), total;
+        NEED_ABSENT(0);
+        total = (long) hn + G + (long) tn;
+        reg = (unsigned char *) mmap(NULL, (size_t) total, PROT_READ | PROT_WRITE, MAP_PRIVATE | MAP_ANONYMOUS | MAP_NORESERVE, -1, 0);
+        if (reg == (unsigned char *) MAP_FAILED) { perror("mmap"); _exit(2); }
+        memcpy(reg, hp, hn); memcpy(reg + hn + G, tp, tn);
+        S[0] = M_NEW_FROM_BUFF((spif_byteptr_t) reg, (spif_memidx_t) total, (spif_memidx_t) total);
+        munmap(reg, (size_t) total);
+        free(hp); free(tp);
+        SC[0].on = 1; SC[0].head = (long) hn; SC[0].G = G;
+        sb_bool(ret, S[0] != NULL);
+        if (!S[0]) SC[0].on = 0;
+    } else if (me == 1 && OP("dup_to_a")) {
         NEED_LIVE(1); NEED_ABSENT(0);
         S[0] = M_DUP(S[1]);
         if (S[0] == S[1]) FAIL("dup_returned_same_object");
@@ -412,7 +502,7 @@ static const char *vh_step(const vh_step_t *st, vh_sb *ret, vh_sb *state) {
         sb_bool(ret, r1 && r2);
     } else if (OP("del")) {
         NEED_LIVE(me);
-        sb_bool(ret, M_DEL(m)); S[me] = (spif_mbuff_t) NULL;
+        sb_bool(ret, M_DEL(m)); S[me] = (spif_mbuff_t) NULL; SC[me].on = 0;
     } else if (OP("done")) {
         NEED_LIVE(me);
         sb_bool(ret, M_DONE(m));
@@ -444,7 +534,9 @@ static const char *vh_step(const vh_step_t *st, vh_sb *ret, vh_sb *state) {
     } else if (OP("trim")) {
         NEED_LIVE(me); sb_bool(ret, M_TRIM(m));
     } else if (OP("reverse")) {
-        NEED_LIVE(me); sb_bool(ret, M_REVERSE(m));
+        NEED_LIVE(me);
+        if (SC[me].on) SC[me].head = (long) m->len - SC[me].G - SC[me].head;      /* the tail becomes the head */
+        sb_bool(ret, M_REVERSE(m));
     } else if (OP("clear")) {
         NEED_LIVE(me); sb_bool(ret, M_CLEAR(m, (spif_uint8_t) vh_int(st->args[0])));
     } else if (OP("sprintf")) {
@@ -458,11 +550,19 @@ static const char *vh_step(const vh_step_t *st, vh_sb *ret, vh_sb *state) {
         else FAIL("harness:unknown_sprintf_kind_%s", kind);
     } else if (OP("index") || OP("rindex")) {
         NEED_LIVE(me);
-        sb_int(ret, (long) (OP("index") ? M_INDEX(m, (spif_uint8_t) vh_int(st->args[0])) : M_RINDEX(m, (spif_uint8_t) vh_int(st->args[0]))));
+        {
+            long r = (long) (OP("index") ? M_INDEX(m, (spif_uint8_t) vh_int(st->args[0])) : M_RINDEX(m, (spif_uint8_t) vh_int(st->args[0]))), o_;
+            if (!sc_pos_out(&SC[me], r, &o_)) FAIL("scaled:result_%ld_lies_deep_inside_the_gap", r);
+            sb_int(ret, o_);
+        }
     } else if (OP("find") || OP("cmp")) {
         spif_mbuff_t o = other_of(st->args[0]);
         NEED_LIVE(me); if (!o) FAIL("harness:no_other_object");
-        if (OP("find")) sb_int(ret, (long) M_FIND(m, o));
+        if (OP("find")) {
+            long r = (long) M_FIND(m, o), o_;
+            if (!sc_pos_out(&SC[me], r, &o_)) FAIL("scaled:result_%ld_lies_deep_inside_the_gap", r);
+            sb_int(ret, o_);
+        }
         else {
             spif_cmp_t c1 = M_CMP(m, o), c2 = M_COMP(m, o);
             if (c1 != c2) FAIL("comp()_and_cmp()_disagree");
@@ -471,7 +571,11 @@ static const char *vh_step(const vh_step_t *st, vh_sb *ret, vh_sb *state) {
     } else if (OP("find_from_ptr") || OP("cmp_with_ptr")) {
         NEED_LIVE(me);
         p = vh_bytes(st->args[0], &n, 0);
-        if (OP("find_from_ptr")) sb_int(ret, (long) M_FIND_PTR(m, (spif_byteptr_t) p, (spif_memidx_t) n));
+        if (OP("find_from_ptr")) {
+            long r = (long) M_FIND_PTR(m, (spif_byteptr_t) p, (spif_memidx_t) n), o_;
+            if (!sc_pos_out(&SC[me], r, &o_)) FAIL("scaled:result_%ld_lies_deep_inside_the_gap", r);
+            sb_int(ret, o_);
+        }
         else {
             int c = (int) M_CMP_PTR(m, (spif_byteptr_t) p, (spif_memidx_t) n);
             if ((inv = beyond_length_check(m, p, (long) n, c))) return inv;
@@ -480,7 +584,7 @@ static const char *vh_step(const vh_step_t *st, vh_sb *ret, vh_sb *state) {
     } else if (OP("ncmp")) {
         spif_mbuff_t o = other_of(st->args[0]);
         NEED_LIVE(me); if (!o) FAIL("harness:no_other_object");
-        sb_int(ret, (long) (int) M_NCMP(m, o, (spif_memidx_t) vh_int(st->args[1])));
+        sb_int(ret, (long) (int) M_NCMP(m, o, (spif_memidx_t) sc_cnt_in(&SC[me], vh_int(st->args[1]))));
     } else if (OP("ncmp_with_ptr")) {
         NEED_LIVE(me);
         p = vh_bytes(st->args[0], &n, 0);
@@ -493,7 +597,7 @@ static const char *vh_step(const vh_step_t *st, vh_sb *ret, vh_sb *state) {
     } else if (OP("subbuff")) {
         spif_mbuff_t r;
         NEED_LIVE(0); NEED_ABSENT(1);
-        r = M_SUBBUFF(S[0], (spif_memidx_t) vh_int(st->args[0]), (spif_memidx_t) vh_int(st->args[1]));
+        r = M_SUBBUFF(S[0], (spif_memidx_t) sc_idx_in(&SC[0], (long) S[0]->len, vh_int(st->args[0])), (spif_memidx_t) vh_int(st->args[1]));
         if (r && r == S[0]) FAIL("subbuff_returned_the_object_itself");
         if (r && r->buff && r->buff >= S[0]->buff && r->buff < S[0]->buff + S[0]->size) FAIL("subbuff_shares_the_byte_buffer");
         S[1] = r;
@@ -501,7 +605,7 @@ static const char *vh_step(const vh_step_t *st, vh_sb *ret, vh_sb *state) {
     } else if (OP("subbuff_to_ptr")) {
         spif_byteptr_t r;
         NEED_LIVE(me);
-        r = M_SUBBUFF_PTR(m, (spif_memidx_t) vh_int(st->args[0]), (spif_memidx_t) vh_int(st->args[1]));
+        r = M_SUBBUFF_PTR(m, (spif_memidx_t) sc_idx_in(&SC[me], (long) m->len, vh_int(st->args[0])), (spif_memidx_t) vh_int(st->args[1]));
         if (!r) sb_puts(ret, "{ok=F,s=[]}");
         else {
             /* the interface does not return the count: as built the result is a fresh block of count+1 bytes,
@@ -534,7 +638,9 @@ static const char *vh_step(const vh_step_t *st, vh_sb *ret, vh_sb *state) {
     if ((inv = check_slot(S[1], "b"))) return inv;
     poison_slack(S[0], vh_cur_step);
     poison_slack(S[1], vh_cur_step + 1);
-    sb_puts(state, "{a="); put_slot(state, S[0]);
+    sb_puts(state, "{a=");
+    if (S[0] && SC[0].on) { if ((inv = put_slot_scaled(state, S[0], &SC[0]))) return inv; }
+    else put_slot(state, S[0]);
     sb_puts(state, ",b="); put_slot(state, S[1]);
     sb_putc(state, '}');
     return NULL;
